@@ -8,7 +8,7 @@ use std::{collections::HashMap, fs, num::NonZeroUsize, path::PathBuf, sync::Arc}
 use tokio::sync::{mpsc, oneshot, oneshot::Sender};
 
 use super::edge::Edge;
-use super::node::NodeToInsert;
+use super::node::{extract_json, NodeToInsert};
 use super::query_language::data_model_parser::validate_json_for_entity;
 use super::sqlite_database::WriteStmt;
 use super::system_entities::{self, AllowedPeer, Peer, PeerNodes};
@@ -1279,9 +1279,24 @@ impl GraphDatabase {
                 }
             };
 
+            //synchronised nodes are indexed like the nodes inserted locally
+            let mut node_fts_str = None;
+            if entity.enable_full_text {
+                if let Some(json_str) = &node._json {
+                    if let Ok(json) = serde_json::from_str::<serde_json::Value>(json_str) {
+                        let mut text = String::new();
+                        if extract_json(&json, &mut text).is_ok() {
+                            node_fts_str = Some(text);
+                        }
+                    }
+                }
+            }
+
             match validate_json_for_entity(entity, &node._json) {
                 Ok(_) => {
                     node_to_insert.entity_name = Some(name);
+                    node_to_insert.index = entity.enable_full_text;
+                    node_to_insert.node_fts_str = node_fts_str;
                     valid_nodes.push(node_to_insert)
                 }
                 Err(_e) => {
